@@ -99,8 +99,8 @@ macro_rules! vio {
     };
 }
 
-fn new_map<K: KeyT, V: ValT>(plan: &Plan) -> SMap<K, V> {
-    HashMap::with_hasher_in(SimBuildHasher::new(plan.clone()), SimAlloc)
+fn new_map<K: KeyT, V: ValT>(plan: &Plan, si: usize) -> SMap<K, V> {
+    HashMap::with_hasher_in(SimBuildHasher::new(plan.clone()), SimAlloc::of_slot(si))
 }
 
 impl<K: KeyT, V: ValT> MapWorld<K, V> {
@@ -117,7 +117,8 @@ impl<K: KeyT, V: ValT> MapWorld<K, V> {
         let slots: Vec<MapSlot<K, V>> = cfg
             .plans
             .iter()
-            .map(|p| MapSlot { map: Some(new_map::<K, V>(p)), model: MapModel::default(), plan: p.clone() })
+            .enumerate()
+            .map(|(i, p)| MapSlot { map: Some(new_map::<K, V>(p, i)), model: MapModel::default(), plan: p.clone() })
             .collect();
         let n = slots.len();
         MapWorld { slots, ctx: RunCtx::new(cfg), peak: vec![(0, 0); n] }
@@ -530,7 +531,7 @@ impl<K: KeyT, V: ValT> MapWorld<K, V> {
         let model = std::mem::take(&mut self.slots[si].model);
         let plan = self.slots[si].plan.clone();
         let fresh = |w: &mut Self| {
-            w.slots[si].map = Some(new_map::<K, V>(&plan));
+            w.slots[si].map = Some(new_map::<K, V>(&plan, si));
         };
         match out {
             Out::Ok(()) => {}
@@ -559,13 +560,13 @@ impl<K: KeyT, V: ValT> MapWorld<K, V> {
         }
         let calls_before = sim().alloc_calls;
         let nm: SMap<K, V> = match op.k {
-            Kd::WithCapacity => HashMap::with_capacity_and_hasher_in(op.a.max(0) as usize, SimBuildHasher::new(plan.clone()), SimAlloc),
+            Kd::WithCapacity => HashMap::with_capacity_and_hasher_in(op.a.max(0) as usize, SimBuildHasher::new(plan.clone()), SimAlloc::of_slot(si)),
             Kd::DropSlot => {
                 let m: SMap<K, V> = Default::default();
                 self.slots[si].plan = Plan::Mixed(0);
                 m
             }
-            _ => new_map::<K, V>(&plan),
+            _ => new_map::<K, V>(&plan, si),
         };
         let calls = sim().alloc_calls - calls_before;
         let want_cap = if op.k == Kd::WithCapacity { op.a.max(0) as usize } else { 0 };
@@ -1408,7 +1409,7 @@ impl<K: KeyT, V: ValT> MapWorld<K, V> {
             drop(old);
             self.slots[ti].model.e.clear();
             fc.before = MapModel::default();
-            self.slots[ti].map = Some(new_map::<K, V>(&self.slots[ti].plan.clone()));
+            self.slots[ti].map = Some(new_map::<K, V>(&self.slots[ti].plan.clone(), ti));
             let src = self.slots[si].map.as_ref().unwrap();
             match self.ctx.call(op, || src.clone()) {
                 Out::Ok(m) => {
